@@ -192,11 +192,13 @@ func decodeCSRFCookie(cookie *http.Cookie, opts *options.Cookie) (*csrf, error) 
 	}
 
 	// Valid cookie, Unmarshal the CSRF
-	csrf := &csrf{cookieOpts: opts}
+	csrf := &csrf{}
 	err = msgpack.Unmarshal(decrypted, csrf)
 	if err != nil {
 		return nil, fmt.Errorf("error unmarshalling data to CSRF: %v", err)
 	}
+	// Set the options after decoding: a payload that decodes to nil resets the struct
+	csrf.cookieOpts = opts
 
 	return csrf, nil
 }
